@@ -14,6 +14,42 @@ from .. import engine, symx
 ROOT = os.path.dirname(os.path.dirname(os.path.dirname(os.path.abspath(__file__))))
 
 
+def _one_level(lv: dict) -> tuple:
+    t0 = time.time()
+    st = engine.explore(lv['module'], lv['fn'], lv['kwargs'], budget_s=lv.get('budget_s', 60.0), nproc=1)
+    wall = time.time() - t0
+    tw = None
+    if lv.get('twin', True) and st.complete:
+        tw = reach_twin(lv)
+    return lv, st, wall, tw
+
+
+def run_levels_parallel(levels: list[dict], nproc: int | None = None) -> dict:
+    """many small levels: one process per level (each explored exhaustively by a single worker)"""
+    import multiprocessing as mp
+
+    out: dict[str, Any] = {'levels': [], 'errors': [], 'vacuous': [], 'inconclusive': [], 'validated_traces': 0}
+    nproc = nproc or int(os.environ.get('VERIF_NPROC', '0')) or os.cpu_count() or 4
+    with mp.get_context('fork').Pool(nproc, maxtasksperchild=8) as pool:
+        results = list(pool.imap(_one_level, levels, chunksize=1))
+    for lv, st, wall, tw in results:
+        rec = dict(lv)
+        rec['stats'] = st
+        rec['wall_s'] = wall
+        out['levels'].append(rec)
+        if tw is not None:
+            if tw[0]:
+                out['validated_traces'] += 1
+            else:
+                out['vacuous'].append(f"{lv['label']}: reachability twin: {tw[1]}")
+        reach = st.counters.get('reached')
+        if st.complete and reach is not None and reach == 0:
+            out['vacuous'].append(f"{lv['label']}: no path reached the assertion")
+        if st.complete and st.paths == 0:
+            out['vacuous'].append(f"{lv['label']}: no completed path")
+    return out
+
+
 def run_levels(levels: list[dict], total_budget_s: float | None = None) -> dict:
     """levels: dict(label, module, fn, kwargs, budget_s, required=False, twin=True)"""
     out: dict[str, Any] = {'levels': [], 'errors': [], 'vacuous': [], 'inconclusive': [], 'validated_traces': 0}
